@@ -32,6 +32,7 @@ type CliCase struct {
 	SchedSeed uint64     `json:"sched_seed"`
 	Deviate   *LibPt     `json:"deviate,omitempty"` // C11: deviation written into the destination
 	DevArch   int        `json:"dev_arch,omitempty"`
+	UlpDev    bool       `json:"ulp_dev,omitempty"` // the deviation is one ulp away from the stored value
 	EnvFault  string     `json:"env_fault,omitempty"` // F6: "dest-exists" (generate), ...
 }
 
@@ -184,7 +185,7 @@ func (cliSim) Gen(prop, tier string, r *rand.Rand) interface{} {
 	if chance(r, 0.25) {
 		c.Cmd.BaseStyle = pick(r, "slash", "dot", "dslash")
 	}
-	if prop == "C10" && chance(r, 0.2) {
+	if (prop == "C10" || prop == "C18") && chance(r, 0.2) {
 		c.Cmd.SrcRemote = true
 	}
 	if prop == "C09" && chance(r, 0.25) {
@@ -405,6 +406,7 @@ func genSumWorld(r *rand.Rand, c *CliCase, l Layout, withDest bool) {
 			a := r.IntN(len(l.Archs))
 			c.DevArch = a
 			c.Deviate = &LibPt{Age: between(r, 0, l.Archs[a].R()-1), V: FV(12345.5)}
+			c.UlpDev = chance(r, 0.5)
 		}
 	} else {
 		cmd.Kind = "sum"
